@@ -67,10 +67,34 @@ RInv(x) == IF IsPoison(x) \/ x[1] = 0 THEN Poison
            ELSE IF x[1] < 0 THEN <<-x[2], -x[1]>> ELSE <<x[2], x[1]>>
 RDiv(x, y) == RMul(x, RInv(y))
 
-\* comparisons; only meaningful on non-poison operands (CmpOK says whether they can be decided)
-CmpOK(x, y) == Ok(x) /\ Ok(y) /\ MulOK(x[1], y[2]) /\ MulOK(y[1], x[2])
-RLt(x, y) == x[1] * y[2] < y[1] * x[2]
-RLe(x, y) == x[1] * y[2] <= y[1] * x[2]
+\* comparisons of non-poison operands; exact and overflow free: cross multiplication when it fits
+\* in 32 bits, otherwise a continued-fraction comparison (integer parts, then the reciprocals of
+\* the fractional parts in reverse order)
+RECURSIVE CmpPos(_, _, _, _)
+CmpPos(a, b, c, d) ==            \* sign of a/b - c/d for a, c >= 0 and b, d > 0
+  LET qa == a \div b
+      qc == c \div d
+      ra == a % b
+      rc == c % d
+  IN IF qa # qc THEN (IF qa < qc THEN -1 ELSE 1)
+     ELSE IF ra = 0 /\ rc = 0 THEN 0
+     ELSE IF ra = 0 THEN -1
+     ELSE IF rc = 0 THEN 1
+     ELSE -CmpPos(b, ra, d, rc)
+
+RCmp(x, y) ==
+  IF MulOK(x[1], y[2]) /\ MulOK(y[1], x[2])
+  THEN LET l == x[1] * y[2]
+           r == y[1] * x[2]
+       IN IF l < r THEN -1 ELSE IF l > r THEN 1 ELSE 0
+  ELSE IF x[1] >= 0 /\ y[1] < 0 THEN 1
+  ELSE IF x[1] < 0 /\ y[1] >= 0 THEN -1
+  ELSE IF x[1] >= 0 THEN CmpPos(x[1], x[2], y[1], y[2])
+  ELSE CmpPos(-y[1], y[2], -x[1], x[2])
+
+CmpOK(x, y) == Ok(x) /\ Ok(y)
+RLt(x, y) == RCmp(x, y) < 0
+RLe(x, y) == RCmp(x, y) <= 0
 REq(x, y) == x = y
 RSign(x) == IF x[1] > 0 THEN 1 ELSE IF x[1] < 0 THEN -1 ELSE 0
 RMax(x, y) == IF IsPoison(x) \/ IsPoison(y) \/ ~CmpOK(x, y) THEN Poison
